@@ -31,7 +31,9 @@
 // SimpleCalo per-stream tallies and totals == sum of expected deposits per (stream, detector);
 // ActionDiagnostic == histogram of (particle, post-step action) over active slots;
 // StepDiagnostic == histogram of step counts of killed tracks (66 bins, clamped at 65);
+// and once per root ActionDiagnostic::calc_actions_map() == the labelled non-zero counts;
 // after every root the three tallies are clear()ed, must read zero, and start again.
+// Every configuration of the lattice is valid: a rejection while building it is a violation.
 #include "harness/loop_explore.hh"
 
 using namespace celeritas;
@@ -278,12 +280,10 @@ int main(int argc, char** argv)
         for (unsigned s : {1u, 2u, 8u})
             for (unsigned streams : {1u, 2u})
             {
-                bool const base = mode <= 7;  // the original lattice keeps its quick subset
-                if (!thorough && streams == 2 && !(mode == 0 || mode == 7 || mode == 13 || mode == 12))
-                    continue;
-                if (!thorough && s == 8 && base && mode % 2)
-                    continue;
-                if (!thorough && !base && s == 1 && mode != 10)
+                // quick: two streams only where the stream matters beyond the stream id handed
+                // to the callback (calorimeters) + one representative of each family
+                if (!thorough && streams == 2
+                    && !(mode == 0 || mode == 4 || mode == 7 || mode == 9 || mode == 12 || mode == 13))
                     continue;
                 cfgs.push_back({fmt("m%d.s%u.t%u", mode, s, streams), mode, s, streams});
             }
@@ -342,7 +342,21 @@ int main(int argc, char** argv)
         int const inner_vol = 1, world_vol = 2;
         Declared decl;
         LoopConfig cfg = make_cfg(sc, &decl, inner_vol, world_vol);
-        auto P = make_loop_problem(cfg);
+        std::unique_ptr<LoopProblem> P;
+        try
+        {
+            P = make_loop_problem(cfg);
+        }
+        catch (std::exception const& e)
+        {
+            // every configuration of the lattice is valid (non-empty selections, disjoint
+            // detector maps, detectors on all callbacks or on none)
+            std::string what = e.what();
+            R.violation("scoring:valid-configuration-rejected", sc.id + ":" + prims.front().id + "|",
+                        fmt("%s: constructing the problem with a valid set of step callbacks threw: %s",
+                            sc.id.c_str(), what.substr(0, 400).c_str()));
+            continue;
+        }
         {
             auto const& vols = P->geometry->volumes();
             if (vols.at(VolumeId(inner_vol)).name != "inner" || vols.at(VolumeId(world_vol)).name != "g1")
@@ -373,6 +387,7 @@ int main(int argc, char** argv)
             if (R.replay() && R.replay_case().compare(0, root.size() + 1, root + "|") != 0)
                 continue;
             R.begin_case(root, 600);
+            auto const violations_before = R.num_violations();
             ExploreStats st;
             EventRun er;
             // streams alternate from root to root (a function of the root, so that a replay
@@ -656,8 +671,15 @@ int main(int argc, char** argv)
                             uint64_t want = it == exp_actions.end() ? 0 : it->second;
                             if (act[p][a] != want)
                             {
-                                R.violation(sc.slots == 1 ? "scoring:action-diagnostic-count[1-slot]"
-                                                          : "scoring:action-diagnostic-count",
+                                // the recorded (fixed) finding is "never runs with one track
+                                // slot": every count is zero; any other miscount is not it
+                                bool all_zero = true;
+                                for (auto const& row : act)
+                                    for (auto v : row)
+                                        all_zero = all_zero && v == 0;
+                                R.violation(sc.slots == 1 && all_zero
+                                                ? "scoring:action-diagnostic-count[1-slot]"
+                                                : "scoring:action-diagnostic-count",
                                             cid,
                                             fmt("%s: ActionDiagnostic counts %u steps of particle %zu "
                                                 "ending with action %s, %llu happened",
@@ -708,6 +730,36 @@ int main(int argc, char** argv)
             else
             {
                 explore(body, on_exec, bound, &st);
+            }
+            // labelled form of the action counts (once per root, on the cumulative counts)
+            if (R.num_violations() == violations_before)
+            {
+                std::map<std::string, uint64_t> want;
+                for (auto const& kv : exp_actions)
+                    if (kv.second)
+                        want[P->action_labels.at(kv.first.second) + " "
+                             + std::string(P->particle->id_to_label(ParticleId(kv.first.first)))]
+                            += kv.second;
+                std::map<std::string, uint64_t> have;
+                for (auto const& kv : P->action_diag->calc_actions_map())
+                    have[kv.first] = kv.second;
+                if (have != want)
+                {
+                    std::string diff;
+                    for (auto const& kv : want)
+                        if (!have.count(kv.first) || have[kv.first] != kv.second)
+                            diff += fmt(" '%s' expected %llu got %llu;", kv.first.c_str(),
+                                        (unsigned long long)kv.second,
+                                        (unsigned long long)(have.count(kv.first) ? have[kv.first] : 0));
+                    for (auto const& kv : have)
+                        if (!want.count(kv.first))
+                            diff += fmt(" '%s' expected 0 got %llu;", kv.first.c_str(),
+                                        (unsigned long long)kv.second);
+                    R.violation("scoring:action-diagnostic-map", root + "|",
+                                fmt("%s: calc_actions_map() differs from the steps that happened:%s",
+                                    sc.id.c_str(), diff.c_str()));
+                }
+                R.count("action_map_compared");
             }
             // reset of the tallies: clear() (all streams), everything must read zero, and the
             // expectations of the next root start from zero
